@@ -123,7 +123,7 @@ def fieldsLine (st : FdRun) (lineNo : Nat) (line : String) : Except String (FdRu
           (if perr != "-" || (get "aerr") != "-" && viaNew || wrongJson.isEmpty then [] else [s!"PROPFAIL C20 apply_fills {tag} wrong_json={wrongJson.map (·.1)} vals={get "vals"}"]) ++
           (if perr != "-" || wrongVals.isEmpty then [] else [s!"PROPFAIL C20 apply_fills {tag} wrong={wrongVals.map (·.1)} vals={get "vals"}"]) ++
           (if get "third" == "-" || get "third" == "ok" || get "third" == "" then [] else
-            [s!"PROPFAIL C20 field_holds_exactly_the_value {tag} third={(get "third").take 400} (fields that already held something; the same Fields applied to a first store and then, after it was closed, to a second one with other, shorter values: after each Apply a plain field holds exactly its store's bytes)"]) ++
+            [s!"PROPFAIL C20 field_holds_exactly_the_value {tag} third={(get "third").take 400} (scenarios of their own: fields that already held something and the same Fields applied to a first store and then, after it was closed, to a second one with other, shorter values; the documented pattern NewStore(Secrets: f.Secrets()) then f.Apply with tags not in alphabetical order; a store with lookups disabled that knows two of four names - after each Apply a plain field holds exactly its own secret's bytes from that store, and a field that cannot be filled does not keep the others from being filled)"]) ++
           (if get "second" == "-" || (get "second").endsWith ":ok" then [] else
             [s!"PROPFAIL C20 apply_fills {tag} second={get "second"} (a pointer field whose first decode failed stays unfilled after the secret was repaired and the Fields applied again)"]) ++
           (if get "untouched" == "1" then [] else [s!"PROPFAIL C20 untagged_untouched {tag} vals={get "vals"}"]) ++
